@@ -14,6 +14,7 @@ func init() {
 			"(C03-peer-first) wherever a NetworkPolicy rule's ports are examined for a concrete destination, ruleSelectsPeer has answered true before (the port step is partial: it fails on a named port for an IP destination, so the order of the conjunction matters); (C03-d) eval and list apply the same always-allowed predicates before cache and policies: the guard of each is read off the path conditions of the exits that return the top verdict before any cache or policy call (wrappers of predicates inlined, peers written by role), each predicate alone is sufficient, and no cache / policy call can run while one of them holds; " +
 			"(C03-first) eval loops go on to the next policy/rule only on NotCaptured (first match wins, as the list side's partition discipline C02-b). " +
 			"(C03-part-seen/-all) the IP partition list uses is refined by every ipBlock of every rule: a skip of an already-seen block needs a complete key (CIDR and excepts), every other ipBlock contributes unconditionally - eval answers for one address, list for a whole range. " +
+			"(C03-subject) on the eval path Check{Ingress,Egress}ConnAllowed of an admin policy is called only where its subject is known to select the destination (ingress) / the source (egress), or the callee tests that itself. " +
 			"NOT decided: equality of the two computations on any actual input."
 		rules.FieldCoverage(p, r, "C03-a", "eval", rules.EvalEntries(p), append(append([]string{}, rules.FieldsNetpol...), rules.FieldsAdmin...), "list reads it, so eval must too")
 		rules.FieldCoverage(p, r, "C03-a-list", "list", rules.ListEntries(p), append([]string{}, rules.FieldsAdmin...), "eval reads it, so list must too")
@@ -28,6 +29,7 @@ func init() {
 		rules.ListEvalSiblingConditions(p, r, "C03-e")
 		rules.CacheWriteDiscipline(p, r, "C03-cache-store")
 		rules.CacheKeyShape(p, r, "C03-cache-key")
+		rules.AdminCheckUnderSubjectSelection(p, r, "C03-subject")
 		rules.SeenSetKeyCompleteness(p, r, "C03-part-seen")
 		rules.UnconditionalIPBlockContribution(p, r, "C03-part-all")
 	})
